@@ -25,6 +25,23 @@ def user_tables(alias):
     return sorted(t for t in dbrig.abs_schema(alias) if t.startswith('vapp_'))
 
 
+def shared_table_case():
+    def fld(name, t, **attrs):
+        return {'name': name, 'type': t, 'attrs': attrs, 'related': None}
+
+    def mdl(name, table, fields):
+        return {'name': name, 'table': table, 'unique_together': [], 'index_together': [], 'indexes': [],
+                'constraints': [], 'fields': [fld('id', 'AutoField', primary_key=True)] + fields}
+    spec = {'apps': [{'id': 'vapp', 'models': [
+        mdl('Member', 'vapp_member', [fld('name', 'CharField', max_length=20, null=True)]),
+        mdl('Archived', 'vapp_member', [fld('name', 'CharField', max_length=20, null=True)]),
+        mdl('Book', 'vapp_book', [fld('pages', 'IntegerField', null=True)])]}]}
+    add = lambda model, field: {'t': 'AddField', 'model': model, 'field': field, 'ftype': 'IntegerField',
+                                'initial': None, 'attrs': [['null', 'true']]}
+    muts = [add('Member', 'since'), add('Archived', 'until'), add('Book', 'year')]
+    return spec, muts, [('default', 'other', 'other'), ('other', 'default', 'default'), ('default', 'other', 'default')]
+
+
 def run(ctx):
     evorig.setup()
     quick = ctx.tier == 'quick'
@@ -35,22 +52,34 @@ def run(ctx):
     done = tries = 0
     while done < n and tries < n * 6 and ctx.time_left() > 30:
         tries += 1
-        spec = sigs.gen_spec(ctx.rng, 'vapp', n_models=ctx.rng.randint(2, 3), with_meta=False, with_rel=False)
-        names = [m['name'] for m in spec['apps'][0]['models']]
-        models0 = dbrig.build_models(spec)
-        sig0 = dbrig.sig_from_models(models0)
-        muts, final = sigs.gen_sequence(ctx.rng, sig0, 'vapp', ctx.rng.randint(2, 4),
-                                        kinds=['AddField'] * 3 + ['ChangeField'] * 2 + ['DeleteField'])
-        if final is None or not muts or dangling(final, set()):
-            continue
-        if any(any(a in ('db_index', 'unique', 'db_table', 'related_model') for a, _ in m.get('attrs', []))
-               for m in muts):
-            continue      # relations across databases are not valid Django; index findings belong to C01
+        only_splits = None
+        if tries == 1:
+            # two models of one app that share a table name, kept apart by the router (Django allows this once
+            # routers are configured), next to a third model
+            spec, muts, only_splits = shared_table_case()
+            names = [m['name'] for m in spec['apps'][0]['models']]
+            sig0 = dbrig.sig_from_models(dbrig.build_models(spec))
+            r = sigs.real_simulate(sig0, 'vapp', [sigs.real_mutation(m) for m in muts])
+            final = r[1] if r[0] == 'ok' else None
+            if final is None:
+                continue
+        else:
+            spec = sigs.gen_spec(ctx.rng, 'vapp', n_models=ctx.rng.randint(2, 3), with_meta=False, with_rel=False)
+            names = [m['name'] for m in spec['apps'][0]['models']]
+            models0 = dbrig.build_models(spec)
+            sig0 = dbrig.sig_from_models(models0)
+            muts, final = sigs.gen_sequence(ctx.rng, sig0, 'vapp', ctx.rng.randint(2, 4),
+                                            kinds=['AddField'] * 3 + ['ChangeField'] * 2 + ['DeleteField'])
+            if final is None or not muts or dangling(final, set()):
+                continue
+            if any(any(a in ('db_index', 'unique', 'db_table', 'related_model') for a, _ in m.get('attrs', []))
+                   for m in muts):
+                continue      # relations across databases are not valid Django; index findings belong to C01
         spec1 = dbrig.spec_from_sig(final)
         spec1['apps'] = [a for a in spec1['apps'] if a['id'] == 'vapp']
         done += 1
         seed = ctx.seed * 4099 + tries
-        for k, split in enumerate(itertools.product(['default', 'other'], repeat=len(names))):
+        for k, split in enumerate(only_splits or itertools.product(['default', 'other'], repeat=len(names))):
             if ctx.time_left() < 20:
                 break
             # every other split: the router also answers db_for_read/db_for_write with a catch-all 'default'
